@@ -854,33 +854,60 @@ def deficient_sets(V, limit=60000):
                 mk |= groups[k][1]
         masks.add(mk)
     masks = sorted(masks, key=lambda x: -bin(x).count('1'))
-    maximal = []
+    maximal = []                                # (mask, popcount); a set can only be contained in a strictly larger one
     for mk in masks:
-        if not any((mk | M) == M for M in maximal):
-            maximal.append(mk)
-    return maximal, ambiguous
+        pc = bin(mk).count('1')
+        if not any((mk | M) == M for M, c in maximal if c > pc):
+            maximal.append((mk, pc))
+    return [M for M, c in maximal], ambiguous
+
+
+def flat_cost(V):
+    m = len(distinct_directions(V))
+    d = V.shape[1]
+    return 0 if m <= d - 1 else math.comb(m, d - 1)
 
 
 def is_extendible(local):
     """exact criterion: a product vector orthogonal to all members exists iff the members can be distributed over the parties
-    such that every party's share is rank deficient. Returns (True/False/None, witness, ambiguous)."""
+    such that every party's share is rank deficient. The party with the most expensive flat enumeration is treated last: its share
+    is whatever remains, and its rank is computed directly. Returns (True/False/None, witness, ambiguous)."""
     N = local[0].shape[0]
-    fams = []
-    amb = False
-    for A in local:
-        ms, a = deficient_sets(np.asarray(A, dtype=np.complex128))
+    loc = [np.asarray(A, dtype=np.complex128) for A in local]
+    costs = [flat_cost(A) for A in loc]
+    last = int(np.argmax(costs))
+    fams = {}
+    amb = [False]
+    for i, A in enumerate(loc):
+        if i == last:
+            continue
+        ms, a = deficient_sets(A)
         if ms is None:
             return None, None, False
-        amb |= a
-        fams.append(ms)
-    order = sorted(range(len(local)), key=lambda i: len(fams[i]))
+        amb[0] |= a
+        fams[i] = ms
+    order = sorted(fams, key=lambda i: len(fams[i]))
     memo = {}
+    lastmemo = {}
+
+    def last_deficient(remaining):
+        if remaining not in lastmemo:
+            idx = [j for j in range(N) if (remaining >> j) & 1]
+            if len(idx) < loc[last].shape[1]:
+                lastmemo[remaining] = True
+            else:
+                sv = np.linalg.svd(loc[last][idx], compute_uv=False)
+                smin = sv[loc[last].shape[1] - 1]
+                if 1e-11 < smin < 1e-7:
+                    amb[0] = True
+                lastmemo[remaining] = bool(smin < 1e-9)
+        return lastmemo[remaining]
 
     def cover(pi, remaining):
         if remaining == 0:
             return []
         if pi == len(order):
-            return None
+            return [(last, remaining)] if last_deficient(remaining) else None
         k = (pi, remaining)
         if k in memo:
             return memo[k]
@@ -893,7 +920,7 @@ def is_extendible(local):
         memo[k] = ret
         return ret
     w = cover(0, (1 << N) - 1)
-    return (w is not None), w, amb
+    return (w is not None), w, amb[0]
 
 
 def alphabet_extension(local, prod):
@@ -918,10 +945,10 @@ def alphabet_extension(local, prod):
 def upb_configs(tier):
     quick = tier == 'quick'
     cfg = [('tiles', None), ('pyramid', None), ('feng4x4', None), ('min4x4', None), ('feng2x2x2x2', None)]
-    cfg += [('quadres', x) for x in ((3, 7) if quick else (3, 7, 9, 15, 19, 21))]
+    cfg += [('quadres', x) for x in ((3, 7, 9) if quick else (3, 7, 9, 15, 19, 21))]
     cfg += [('genshifts', x) for x in ((3, 5, 7) if quick else (3, 5, 7, 9))]
     cfg += [('gentiles1', x) for x in ((4, 6) if quick else (4, 6, 8, 10))]
-    dmax = 6 if quick else 8
+    dmax = 6 if quick else 9
     cfg += [('gentiles2', (a, b)) for b in range(4, dmax + 1) for a in range(3, b + 1)]
     return cfg
 
@@ -1225,6 +1252,12 @@ def run_cheb(case, out, env):
                     R = refs[bi].copy()
                     if bi in (1, 3):
                         R[:d - 1, d - 1] = B[:d - 1, d - 1] * 0 + R[:d - 1, d - 1]
+                    if bi == 4:
+                        # the computational basis as a set: every row a distinct basis vector up to a phase (no row order is documented)
+                        ab = np.abs(B)
+                        if not (np.abs(ab.max(axis=1) - 1).max() <= tol and len(set(np.argmax(ab, axis=1).tolist())) == d and np.abs(ab.sum(axis=1) - 1).max() <= tol * d):
+                            out.violation(key0 + '/not_computational_basis', 'with_computational_basis=True: the fifth basis is not the computational basis', basis=bi, **det)
+                        continue
                     ph = np.sum(R.conj() * B, axis=1)
                     if np.abs(np.abs(ph) - 1).max() > tol * 4:
                         out.violation(key0 + '/not_chebyshev_basis', 'basis %d is not the Chebyshev-polynomial basis (row overlap %.6g with the cosine formula)' % (bi, np.abs(ph).min()), basis=bi, **det)
@@ -1336,6 +1369,19 @@ def run_gme(case, out, env):
         out.sample = {'kind': 'gme', 'fn': 'wtype', 'abc': [1 / math.sqrt(3)] * 3, 'expected': 5 / 9}
 
 
+def prepare(env):
+    """sanity of the unextendibility oracle on literal inputs (a failure is a harness error, never a verdict)"""
+    s2, s3 = 1 / math.sqrt(2), 1 / math.sqrt(3)
+    A = np.array([[1, 0, 0], [s2, -s2, 0], [0, 0, 1], [0, s2, -s2], [s3, s3, s3]])
+    B = np.array([[s2, -s2, 0], [0, 0, 1], [0, s2, -s2], [1, 0, 0], [s3, s3, s3]])
+    assert is_extendible([A, B])[0] is False                      # Tiles (Bennett et al. 1999)
+    for j in range(5):
+        keep = [k for k in range(5) if k != j]
+        assert is_extendible([A[keep], B[keep]])[0] is True       # four product vectors in 3x3 are always extendible
+    e = np.eye(2)
+    assert is_extendible([np.stack([e[0], e[0], e[1]]), np.stack([e[0], e[1], e[0]]), np.stack([e[0], e[0], e[0]])])[0] is True
+
+
 # ------------------------------------------------------------------ cases
 def build_cases(tier, seed):
     quick = tier == 'quick'
@@ -1352,7 +1398,7 @@ def build_cases(tier, seed):
     wn = 5 if quick else 7
     for n in range(1, wn + 1):
         cases.append({'kind': 'ket', 'fn': 'Wtype', 'n': n, 'G': G})
-    dd = 5 if quick else 8
+    dd = 6 if quick else 10
     nuni = 9 if quick else 41
     for d in range(2, dd + 1):
         for fam in ('Werner', 'Isotropic'):
@@ -1373,7 +1419,7 @@ def build_cases(tier, seed):
         for tA in SIX_GT[:ngt]:
             cases.append({'kind': 'sixparam', 'gA': gA, 'tA': tA, 'ngt': ngt, 'nphi': nphi, 'entropy': first})
             first = False
-    for n in range(1, (3 if quick else 5) + 1):
+    for n in range(1, (4 if quick else 5) + 1):
         cases.append({'kind': 'tetra', 'n': n})
     for d in range(2, (6 if quick else 12) + 1):
         cases.append({'kind': 'cheb', 'd': d, 'G': G})
@@ -1384,7 +1430,7 @@ def build_cases(tier, seed):
         'werner_isotropic_d': [2, dd], 'uniform_grid_points': nuni, 'grid_rule': 'end points, thresholds, adjacent floats, +-1e-9, +-1e-6, +-1e-3, uniform grid',
         'upb_configs': [[k, a] for k, a in ucfg], 'upb_inadmissible_probes': [[k, a] for k, a in UPB_INADMISSIBLE],
         'sixparam_lattice': {'gamma_theta': SIX_GT[:ngt], 'phi': SIX_PHI[:nphi], 'points': ngt ** 4 * nphi ** 2},
-        'tetrahedron_n': [1, 3 if quick else 5], 'chebyshev_d': [2, 6 if quick else 12], 'generic_atoms': G,
+        'tetrahedron_n': [1, 4 if quick else 5], 'chebyshev_d': [2, 6 if quick else 12], 'generic_atoms': G,
         'exhaustive': True,
         'note': 'exhaustive within the stated bounds: every argument point x option combination of every listed constructor is executed; '
                 'real parameters are covered on the stated grids only',
